@@ -211,23 +211,42 @@ impl HavokObjectType {
         }
     }
 
-    pub fn members(&self) -> Vec<&HavokObjectTypeMember> {
-        if let Some(x) = &self.parent {
-            x.members()
-                .into_iter()
-                .chain(self.members.iter())
-                .collect::<Vec<_>>()
-        } else {
-            self.members.iter().collect::<Vec<_>>()
+    /// This type and its ancestors, nearest first. (A loop: a tag file can declare a chain of
+    /// parents that is too long to walk recursively.)
+    fn ancestry(&self) -> Vec<&HavokObjectType> {
+        let mut chain = Vec::new();
+        let mut current = Some(self);
+        while let Some(x) = current {
+            chain.push(x);
+            current = x.parent.as_deref();
         }
+        chain
+    }
+
+    pub fn members(&self) -> Vec<&HavokObjectTypeMember> {
+        self.ancestry()
+            .into_iter()
+            .rev()
+            .flat_map(|x| x.members.iter())
+            .collect::<Vec<_>>()
     }
 
     pub fn member_count(&self) -> usize {
-        (if let Some(x) = &self.parent {
-            x.member_count()
-        } else {
-            0
-        }) + self.members.len()
+        self.ancestry().into_iter().map(|x| x.members.len()).sum()
+    }
+}
+
+impl Drop for HavokObjectType {
+    fn drop(&mut self) {
+        // release the ancestors that only this type keeps alive one after the other (the
+        // default drop of a long chain of parents recurses once per ancestor)
+        let mut next = self.parent.take();
+        while let Some(parent) = next {
+            next = match Arc::try_unwrap(parent) {
+                Ok(mut parent) => parent.parent.take(),
+                Err(_) => None,
+            };
+        }
     }
 }
 
